@@ -94,11 +94,29 @@ def run(tier, seed, findings):
         from prosemirror.transform import Transform
 
         rnd2 = random.Random(seed + 5)
-        for doc in [d for d in D.corpus(name, 8 if tier == "quick" else 30, seed) if d.content.size <= 30]:
+        # adjacent inline nodes carrying *different* marks of one attribute-carrying type (two links with
+        # different targets side by side): a third mark of that type displaces both in one operation
+        shaped = []
+        extra_marks = []
+        for mname, mt in O.marks.items():
+            if not mt.attrs or "paragraph" not in S.nodes:
+                continue
+            v = [D.mk_mark(S, mname, {k: val for k in mt.attrs}) for val in ("foo", "bar", "qux")]
+            extra_marks.append(v[2])
+            for kids in ([D.mk_text(S, "foo", [v[0]]), D.mk_text(S, "bar", [v[1]]), D.mk_text(S, " baz")],
+                         [D.mk_text(S, "a"), D.mk_text(S, "b", [v[0]]), D.mk_text(S, "c", [v[1]]), D.mk_text(S, "d", [v[0]])],
+                         [D.mk_text(S, "x", [v[1]]), D.mk_text(S, "y", [v[0]])]):
+                try:
+                    dd = D.mk_node(S, "doc", [D.mk_node(S, "paragraph", kids)])
+                    dd.check()
+                    shaped.append(dd)
+                except Exception:  # noqa: BLE001
+                    pass
+        for doc in shaped + [d for d in D.corpus(name, 8 if tier == "quick" else 30, seed) if d.content.size <= 30]:
             size = doc.content.size
             rngs = [(0, size)] + [tuple(sorted((rnd2.randint(0, size), rnd2.randint(0, size)))) for _ in range(4 if tier == "quick" else 12)]
             for f, t in rngs:
-                for m in ops.marks_pool(S, O):
+                for m in ops.marks_pool(S, O) + extra_marks:
                     for opn in ("add_mark", "remove_mark"):
                         tr = Transform(doc)
                         try:
